@@ -118,6 +118,15 @@ fn hook(kind: desync::verif::PointKind, loc: &'static std::panic::Location<'stat
     let kind = kind as u8;
     if kind == 13 { crate::run::on_spawn_event(); }
     if kind == 14 { crate::run::on_exit_event(); }
+    point_core(kind, loc);
+}
+
+/// A point in the harness's own "user code" that the crate calls back into (cloning a waker it was given): user code may take any
+/// amount of time there, so it is a place where the active plan may inject a delay like at the crate's own points
+#[track_caller]
+pub fn user_point() { point_core(12, std::panic::Location::caller()); }
+
+fn point_core(kind: u8, loc: &'static std::panic::Location<'static>) {
     let mode = MODE.load(Relaxed);
     if mode == 0 { return; }
     let site = site_id(loc.file(), loc.line());
